@@ -1025,3 +1025,21 @@ func (s *respServer) RewriteList(key string, f func([]byte) []byte) {
 		v.list[i] = f(append([]byte{}, x...))
 	}
 }
+
+// BackdateSessions moves the connected_at field of every stored session hash d seconds into the past without
+// journalling (a broker that crashed long after its clients connected: the stored connect time is old, the
+// sessions were alive until the crash).
+func (s *respServer) BackdateSessions(d int64) {
+	s.mu.Lock()
+	defer s.mu.Unlock()
+	for k, v := range s.db {
+		if v.hash == nil || !strings.HasPrefix(k, "session:") {
+			continue
+		}
+		if old, ok := v.hash.vals["connected_at"]; ok {
+			if t, err := strconv.ParseInt(string(old), 10, 64); err == nil && t > d {
+				v.hash.vals["connected_at"] = []byte(strconv.FormatInt(t-d, 10))
+			}
+		}
+	}
+}
